@@ -77,6 +77,9 @@ Inductive prim : Type :=
 
 Definition poison : nat := 165.  (* 0xA5 *)
 
+(* page contents used by the replay: distinct per reader and page *)
+Definition default_pagefun (r p : nat) : nat := (r + 1) * 100 + p.
+
 Definition is_pooled_or_fresh (h : list cell) (c : nat) : bool :=
   match nth_error h c with
   | Some x => match ctag x with TPooled => true | _ => false end
